@@ -292,7 +292,17 @@ fn fam_lzma2(ctx: &CaseCtx, cov: &mut Cov) -> CaseOut {
     l2p.extremes = rng.chance(1, 12);
     // sometimes: no chunk at all (the stream is just its end byte), or a last
     // chunk that is uncompressed
-    let mut chunks = if rng.chance(1, 25) { vec![] } else { gen_chunks(&mut rng, &l2p) };
+    let mut chunks = if rng.chance(1, 25) {
+        vec![]
+    } else if rng.chance(1, 150) {
+        // a compressed chunk whose unpacked size sits on a boundary of its size field
+        let target = *rng.pick(&super::c02::SIZE_FIELD_BOUNDARIES);
+        cov.name("lzma2_chunk_on_size_field_boundary", 1);
+        let props = Props::new(rng.below(5) as u32, 0, rng.below(5) as u32);
+        super::c02::sized_chunk_stream(&mut rng, props, target)
+    } else {
+        gen_chunks(&mut rng, &l2p)
+    };
     if !chunks.is_empty() && rng.chance(1, 6) {
         let n = *rng.pick(&[1usize, 2, 255, 256, 4096, 65535, 65536]);
         chunks.push(crate::refmodel::lzma2::Chunk::Raw { reset_dict: rng.chance(1, 3), data: rng.bytes(n) });
